@@ -42,6 +42,13 @@ def run(ctx):
                 ("seq", ("plus", A), Bb), ("alt", ("plus", ("seq", A, Bb)), A)]
         jobs.append(Job("c14.py", "h_find_all", {"patterns": core, "L": 4}, 200, 30, tag="fixed core of overlapping-attempt shapes, L<=4", meta={"sigtag": "find_all", "tolerant": True}))
         ctx.bounds["core"] = f"{len(core)} fixed trees with two attempts alive at once, sequences of length <= 4"
+    # ---- a search is a function of (pattern, sequence): pairs of patterns of the same shape over different letters, one searched after the other in one process
+    A, Bb, C = ("atom", 0), ("atom", 1), ("atom", 2)
+    pairs = [("plus", ("alt", A, Bb)), ("plus", ("alt", C, A)), ("alt", A, ("seq", Bb, C)), ("alt", C, ("seq", A, Bb)), ("seq", A, ("opt", Bb)), ("seq", C, ("opt", A)), ("plus", A), ("plus", Bb)]
+    for q in range(-1, len(pairs)):
+        jobs.append(Job("c14.py", "h_find_all_after", {"patterns": pairs, "L": 3 if ctx.quick() else 4, "fix_q": q, "tolerate": ["find_all:incomplete:inner-match-shadows-outer"]}, 200 if ctx.quick() else 600, 30,
+                        tag=f"search after a search for pattern #{q}", meta={"sigtag": "find_all:after", "twin": q == 0}))
+    ctx.bounds["search history"] = f"{len(pairs)} patterns (same shapes over different letters) x (no | each of them searched first) x every sequence of length <= 3 (quick) / 4"
     # ---- (b) the built-in header shapes over token sequences
     from vlib import capture, xh
     NB = 3 if ctx.quick() else 4
